@@ -256,7 +256,11 @@ pub fn exec_plain(req: &Req, api: &Arc<InternalAPI>, node: &SimNode, op: &Op) ->
             "reorged".into()
         }
         Op::NodeDown => {
-            node.lock().faults.down = true;
+            {
+                let mut st = node.lock();
+                st.faults.down = true;
+                st.faults.flavour = (st.rpc_count % 5) as u8;
+            }
             "down".into()
         }
         Op::NodeUp => {
@@ -462,6 +466,8 @@ fn run_scenario_here(sc: &Scenario, strategy: Option<Strategy>, order: Option<&[
                 }
             }
             let ev_from = log.len();
+            // what the tower held when the concurrent phase began (C12: none of it may silently disappear)
+            let held_before = DbReader::open(&ctx.db_path).dump().appointments;
             let rpc_base = node.lock().rpc_count;
             let bs_base = node.lock().bs_count;
             if let Some(n) = sc.down_at_rpc {
@@ -695,6 +701,38 @@ fn run_scenario_here(sc: &Scenario, strategy: Option<Strategy>, order: Option<&[
                         let ptxid = p.compute_txid();
                         if !has_tracker && !st.has_tx(&ptxid) && st.would_send(&p) == Verdict::Ok {
                             missing.push(format!("dispute {d}: penalty {ptxid} neither tracked nor at the node although it would be accepted"));
+                        }
+                    }
+                }
+                // An appointment held before the phase that is gone now, whose dispute is confirmed and whose penalty the node
+                // would take but does not have: dropped -- unless the node really refused that penalty during the phase
+                // (an answer, not a transport error) or its owner is gone.
+                let refused: BTreeSet<Txid> = log
+                    .since(ev_from)
+                    .into_iter()
+                    .filter_map(|e| match e {
+                        Event::Rpc { method: "sendrawtransaction", txid: Some(t), verdict } if !matches!(verdict, Verdict::Ok | Verdict::Transport) => Some(t),
+                        _ => None,
+                    })
+                    .collect();
+                for a in held_before.iter() {
+                    if db.appointments.iter().any(|b| b.uuid == a.uuid) {
+                        continue;
+                    }
+                    if !db.users.iter().any(|u| u.user_id == a.user_id) {
+                        continue;
+                    }
+                    let Some(d) = (0..nd).find(|d| req.locator(*d).to_vec() == a.locator) else { continue };
+                    let dtxid = uni.dispute(d).compute_txid();
+                    if !st.confirmed.contains_key(&dtxid) {
+                        continue;
+                    }
+                    if let Ok(p) = cryptography::decrypt(&a.blob, &dtxid) {
+                        let ptxid = p.compute_txid();
+                        if !refused.contains(&ptxid) && !st.has_tx(&ptxid) && st.would_send(&p) == Verdict::Ok {
+                            missing.push(format!(
+                                "dispute {d}: the appointment held before the outage is gone, its penalty {ptxid} was never refused by the node, is not at the node and would be accepted"
+                            ));
                         }
                     }
                 }
